@@ -535,14 +535,14 @@ def main(argv: list[str]) -> int:
     # (490 worlds: the full product has 240 k pairs)
     genr = random.Random(20260928)
     pairs = []
-    for _ in range(500 if tier == "quick" else 12000):
+    for _ in range(500 if tier == "quick" else 8000):
         a = genr.choice(rw)
         b = dict(a)
         for m in genr.sample(sorted(b), genr.choice([1, 1, 2, 3])):
             b[m] = genr.choice(sorted(W.VARIANTS[m]))
         if a != b:
             pairs.append((a, b))
-    multi = ext_histories(250 if tier == "quick" else 6000)
+    multi = ext_histories(250 if tier == "quick" else 3000)
     rwork = [([a, b], W.CONFIGS[i % 4]) for i, (a, b) in enumerate(pairs)] + [(hs, W.CONFIGS[i % 4]) for i, hs in enumerate(multi)]
     rresults = []
     with ProcessPoolExecutor(16) as pex:
@@ -695,7 +695,7 @@ def main(argv: list[str]) -> int:
         "model_histories": n_emitted, "model_history_replays": len(work), "r_two_step": len(pairs), "r_multi_step": len(multi), "t_histories": len(twork), "g_cases": len(gwork), "validate_cases": len(vcases), "validate_model_drift": vdrift[:6], "validate_model_drift_count": len(vdrift), "g_model_drift_count": len(gdrift), "g_model_drift": gdrift[:5],
         "model_drift": [{"cfg": w[1], "drift": d} for w, d in drift[:10]], "model_drift_count": len(drift),
         "rule": "every history TLC emits for Gen_Incremental.cfg (<=3 runs, <=2 edits, <=1 touch over catalogue M) replayed in the store x format "
-                "configurations (quick: rotating, thorough: all four); catalogue R two-step histories (a fixed set of 500 / 12,000) and a fixed set of 3-4 step "
+                "configurations (quick: rotating, thorough: all four); catalogue R two-step histories (a fixed set of 500 / 8,000) and a fixed set of 3-4 step "
                 "histories over R + stub + package/submodule + file move + extra importers; non-trivial = history with a run in which some but not all modules were re-analysed "
                 "and a run with diagnostics",
         "samples": [{"history": [[e["ev"], e["mod"], e["v"]] for e in work[0][0]], "cfg": work[0][1], "observed": results[0]["obs"]},
